@@ -31,7 +31,7 @@ try:
     res["checks"] = {}
     for p in props:
         t = time.time()
-        r = sh("./check %s --tier quick" % p, env=dict(os.environ, REPO=wt), cwd="/verif", timeout=3600)
+        r = sh("./check %s --tier quick" % p, env=dict(os.environ, REPO=wt, VERIF_EVIDENCE_DIR="/root/scratch/seed-evidence"), cwd="/verif", timeout=3600)
         vio = [l for l in r.stdout.splitlines() if l.startswith("VIOLATION")]
         nxt = ""
         lines = r.stdout.splitlines()
